@@ -466,7 +466,13 @@ fn fs_glob_tables<T: ColumnType>(main_abs: &str) -> (Value, Value, Value) {
 /// family "file": parse_file / run_file on a real directory tree
 fn file_family<T: ColumnType + 'static>(case: &Value) -> Value {
     let tree = Tree::create(&case["files"]);
-    let main_abs = format!("{}{}", tree.prefix(), case["main"].as_str().unwrap());
+    // "bare": the script is named by a bare relative path (no directory part) from the tree's root as working directory
+    let bare = case.get("bare").and_then(|b| b.as_bool()).unwrap_or(false);
+    let old_cwd = std::env::current_dir().ok();
+    if bare {
+        std::env::set_current_dir(&tree.root).unwrap();
+    }
+    let main_abs = if bare { case["main"].as_str().unwrap().to_string() } else { format!("{}{}", tree.prefix(), case["main"].as_str().unwrap()) };
     let mode = case.get("mode").and_then(|s| s.as_str()).unwrap_or("parse");
     let mut out = serde_json::Map::new();
     let (fs_tbl, glob_tbl, re_tbl) = fs_glob_tables::<T>(&main_abs);
@@ -501,6 +507,9 @@ fn file_family<T: ColumnType + 'static>(case: &Value) -> Value {
         drop(runner);
         set_current(None);
         out.insert("events".into(), Value::Array(shared.lock().unwrap().events.clone()));
+    }
+    if let (true, Some(d)) = (bare, old_cwd) {
+        let _ = std::env::set_current_dir(d);
     }
     let v = strip_prefix_json(&Value::Object(out), &tree.prefix());
     drop(tree);
@@ -678,6 +687,20 @@ fn testdir_family(_case: &Value) -> Value {
     let same2 = d2.len() == 3 && d2.iter().all(|d| d == &d2[0]);
     let distinct = !d1.is_empty() && !d2.is_empty() && d1[0] != d2[0];
     let exist_alive = d1.iter().chain(d2.iter()).all(|d| std::path::Path::new(d).is_dir());
+    // "for as long as the runner lives": shutting the sessions down does not end the runner's life - the directory is still there,
+    // and records run afterwards still see the same one (with what was written into it)
+    let mut after_shutdown = true;
+    if let Some(d) = d1.first() {
+        let _ = std::fs::write(std::path::Path::new(d).join("kept.txt"), b"x");
+        r1.shutdown();
+        after_shutdown &= std::path::Path::new(d).join("kept.txt").is_file();
+        set_current(Some(s1.clone()));
+        let n0 = dirs_of(&s1).len();
+        let ok3 = r1.run_script("control substitution on\n\nstatement ok\nC $__TEST_DIR__\n").is_ok();
+        set_current(None);
+        let d3 = dirs_of(&s1);
+        after_shutdown &= ok3 && d3.len() == n0 + 1 && d3.last() == Some(d) && std::path::Path::new(d).join("kept.txt").is_file();
+    }
     drop(r1);
     let gone1 = !d1.is_empty() && !std::path::Path::new(&d1[0]).exists();
     let still2 = !d2.is_empty() && std::path::Path::new(&d2[0]).is_dir();
@@ -686,7 +709,7 @@ fn testdir_family(_case: &Value) -> Value {
     // the library's run_parallel: one runner per file, each with its own test directory
     let par = parallel_testdirs();
     json!({"ok": ok1 && ok2, "same_within_runner": same1 && same2, "distinct_between_runners": distinct,
-           "exist_while_alive": exist_alive, "removed_on_drop": gone1 && gone2, "other_survives_drop": still2,
+           "exist_while_alive": exist_alive, "same_after_shutdown": after_shutdown, "removed_on_drop": gone1 && gone2, "other_survives_drop": still2,
            "parallel_runners_distinct": par.0, "parallel_dirs_removed": par.1})
 }
 
